@@ -45,10 +45,10 @@ Proof.
 Qed.
 
 Lemma arith_div_eq x y : arith OP_DIV x y =
-  if Z.eqb y 0 then Some 0%Z else if Z.eqb x (-9223372036854775808) && Z.eqb y (-1) then None else Some (Z.quot x y).
+  if Z.eqb y 0 then Some 0%Z else if Z.eqb x (-9223372036854775808) && Z.eqb y (-1) then Some (-9223372036854775808)%Z else Some (Z.quot x y).
 Proof. reflexivity. Qed.
 Lemma arith_mod_eq x y : arith OP_MOD x y =
-  if Z.eqb y 0 then Some 0%Z else if Z.eqb x (-9223372036854775808) && Z.eqb y (-1) then None else Some (Z.rem x y).
+  if Z.eqb y 0 then Some 0%Z else if Z.eqb x (-9223372036854775808) && Z.eqb y (-1) then Some 0%Z else Some (Z.rem x y).
 Proof. reflexivity. Qed.
 
 Section Expr.
